@@ -574,7 +574,7 @@ Definition run_dhcp4 (c l : nat) (seed opcode mt : N) (chflag : bool) (ch ci yi 
            | _ => with_rb (arr b) r rb_dhcp
            end in
   let o' := set_opt 53 [mt] o in
-  let fits := Nat.leb 300 c && nodup_keys o && keys_ok o' && Nat.leb (opts_size o') SCRATCH
+  let fits := Nat.leb 300 c && nodup_keys o && keys_ok o'
               && Nat.leb (241 + opts_size o') c
               && (negb chflag || Nat.eqb (List.length ch) 6) && (negb xflag || Nat.eqb (List.length xid) 4)
               && (is4 ci || Nat.eqb (List.length ci) 0) && (is4 yi || Nat.eqb (List.length yi) 0) in
@@ -616,6 +616,106 @@ Definition run_dhcp4 (c l : nat) (seed opcode mt : N) (chflag : bool) (ch ci yi 
     else "-" in
   out3 m s (if known then "dhcp-router-before-mask" else "-").
 
+(* ---------------- small IPv4 packets padded by Ether.AppendPayload ---------------- *)
+(* every inner view is obtained through the library's Payload() getters; [vl] is len(view) *)
+Definition vl (r : res slice) : string := kv "vl" (show_res (fun s => dn (len s)) r).
+Definition rb_pad4 (inner : slice -> string) (data : slice -> res slice) (e : slice) : string :=
+  let ip := ether_payload e in
+  let u := bind ip ip4_payload in
+  rb_ether e ++ BAR ++ vl ip ++ " " ++ show_res rb_ip4 ip ++ BAR ++ vl u ++ " " ++ show_res inner u ++ BAR
+  ++ kv "data" (show_res (fun d => tok_of_bytes (view d)) (bind u data)) ++ BAR ++ show_class (parse_class e).
+
+Definition pad4_expect (old : bytes) (r : res slice) (c : nat) (smac dmac : bytes) (ttl proto : N) (sip dip : bytes)
+           (inner_len : nat) (inner : string) (data : bytes) (cls : string) : string :=
+  let tl := (20 + inner_len)%nat in
+  let epl := Nat.max 46 tl in
+  sp (show_enc old r)
+     (fmt_ether (tok_of_bytes dmac) (tok_of_bytes smac) "2048" "14" ("14+" ++ dn epl)
+      ++ BAR ++ kv "vl" (dn epl) ++ " " ++
+      fmt_ip4 "4" "20" "192" (dn tl) "0" "0" (dec_of_N ttl) (dec_of_N proto) (tok_of_bytes sip) (tok_of_bytes dip)
+              "T" "T" ("20+" ++ dn inner_len)
+      ++ BAR ++ kv "vl" (dn inner_len) ++ " " ++ inner ++ BAR ++ kv "data" (tok_of_bytes data) ++ BAR ++ cls).
+
+Definition pad4_fits (c : nat) (smac dmac sip dip : bytes) (inner_len : nat) : bool :=
+  Nat.leb 60 c && Nat.leb (34 + inner_len) c && Nat.leb (34 + inner_len) 1522
+  && Nat.eqb (List.length smac) 6 && Nat.eqb (List.length dmac) 6 && is4 sip && is4 dip
+  && (N.land (nth 0 smac 0) 1 =? 0).
+
+Definition run_pad4u (c l : nat) (seed : N) (smac dmac : bytes) (ttl : N) (sip dip : bytes)
+           (sport dport : N) (data : bytes) : string :=
+  let b := mkbuf c l seed in
+  let e0 := match encode_ether b ETH_P_IP smac dmac with Ok e => arr e | _ => arr b end in
+  let r := ether_wrap4 b smac dmac (packet_udp4 ttl sip dip sport dport data) in
+  let m := with_rb_pre (arr b) e0 r (rb_pad4 rb_udp udp_payload) in
+  let dl := List.length data in
+  let s := if pad4_fits c smac dmac sip dip (8 + dl) then
+             match r with
+             | Ok e =>
+                 match ref_ether (view e) with
+                 | Some x =>
+                     match ref_ip4 (re_payload x) with
+                     | Some y =>
+                         match ref_udp (r4_payload y) with
+                         | Some z =>
+                             if eqbytes (re_dst x) dmac && eqbytes (re_src x) smac && (r4_ttl y =? ttl) && (r4_proto y =? 17)
+                                && eqbytes (r4_src y) sip && eqbytes (r4_dst y) dip && (r4_totlen y =? N.of_nat (28 + dl))
+                                && Nat.eqb (List.length (r4_payload y)) (8 + dl)
+                                && (ru_sport z =? sport) && (ru_dport z =? dport) && (ru_len z =? N.of_nat (8 + dl))
+                                && eqbytes (ru_payload z) data
+                                && Nat.eqb (List.length (re_payload x)) (Nat.max 46 (28 + dl))
+                                && forallb (fun v => v =? 0) (skipn (28 + dl) (re_payload x))
+                             then pad4_expect (arr b) r c smac dmac ttl 17 sip dip (8 + dl)
+                                    (fmt_udp (dec_of_N sport) (dec_of_N dport) (dn (8 + dl)) "0" "T" ("8+" ++ dn dl))
+                                    data (dec_of_N (class_of_ports sport dport) ++ "/F")
+                             else REF
+                         | None => REF
+                         end
+                     | None => REF
+                     end
+                 | None => REF
+                 end
+             | _ => "no-result"
+             end
+           else "-" in
+  out3 m s "-".
+
+Definition run_pad4e (c l : nat) (seed : N) (smac dmac : bytes) (ttl : N) (sip dip : bytes)
+           (t code id sq : N) (data : bytes) : string :=
+  let b := mkbuf c l seed in
+  let e0 := match encode_ether b ETH_P_IP smac dmac with Ok e => arr e | _ => arr b end in
+  let r := ether_wrap4 b smac dmac (packet_echo4 ttl sip dip t code id sq data) in
+  let m := with_rb_pre (arr b) e0 r (rb_pad4 rb_echo echo_data) in
+  let dl := List.length data in
+  let s := if pad4_fits c smac dmac sip dip (8 + dl) then
+             match r with
+             | Ok e =>
+                 match ref_ether (view e) with
+                 | Some x =>
+                     match ref_ip4 (re_payload x) with
+                     | Some y =>
+                         match ref_echo (r4_payload y) with
+                         | Some z =>
+                             if eqbytes (re_dst x) dmac && eqbytes (re_src x) smac && (r4_ttl y =? ttl) && (r4_proto y =? 1)
+                                && eqbytes (r4_src y) sip && eqbytes (r4_dst y) dip && (r4_totlen y =? N.of_nat (28 + dl))
+                                && (rc_type z =? t) && (rc_code z =? code) && (rc_id z =? id) && (rc_seq z =? sq)
+                                && eqbytes (rc_data z) data
+                                && Nat.eqb (List.length (re_payload x)) (Nat.max 46 (28 + dl))
+                             then pad4_expect (arr b) r c smac dmac ttl 1 sip dip (8 + dl)
+                                    (fmt_echo (dec_of_N t) (dec_of_N code) "0" (dec_of_N id) (dec_of_N sq) "T"
+                                              (if Nat.eqb dl 0 then "empty" else "8+" ++ dn dl))
+                                    data "6/F"
+                             else REF
+                         | None => REF
+                         end
+                     | None => REF
+                     end
+                 | None => REF
+                 end
+             | _ => "no-result"
+             end
+           else "-" in
+  out3 m s "-".
+
 (* ---------------- dispatch ---------------- *)
 Definition dispatch (kind : string) (args : list string) : string :=
   if String.eqb kind "ether" then
@@ -655,6 +755,18 @@ Definition dispatch (kind : string) (args : list string) : string :=
     match parse_args "nnnbbnbbnnb" args with
     | Some [AN c; AN l; AN s; AB smac; AB dmac; AN ttl; AB sip; AB dip; AN sport; AN dport; AB data] =>
         run_frame4 (nn c) (nn l) s smac dmac ttl sip dip sport dport data
+    | _ => BADARGS
+    end
+  else if String.eqb kind "pad4u" then
+    match parse_args "nnnbbnbbnnb" args with
+    | Some [AN c; AN l; AN s; AB smac; AB dmac; AN ttl; AB sip; AB dip; AN sport; AN dport; AB data] =>
+        run_pad4u (nn c) (nn l) s smac dmac ttl sip dip sport dport data
+    | _ => BADARGS
+    end
+  else if String.eqb kind "pad4e" then
+    match parse_args "nnnbbnbbnnnnb" args with
+    | Some [AN c; AN l; AN s; AB smac; AB dmac; AN ttl; AB sip; AB dip; AN t; AN code; AN id; AN sq; AB data] =>
+        run_pad4e (nn c) (nn l) s smac dmac ttl sip dip t code id sq data
     | _ => BADARGS
     end
   else if String.eqb kind "ip6" then
